@@ -91,6 +91,7 @@ func main() {
 	if bl := core.LoadBaseline(filepath.Join(*verif, "baseline.json")); bl != nil && os.Getenv("VCHECK_NO_NORMALIZE") == "" {
 		// function literals called on the spot (the per-trip defer idiom) run in place
 		var ni []string
+		core.IIFEBaseline = bl
 		ov, ni = core.InlineIIFE(abs, ov)
 		normNotes = append(normNotes, ni...)
 		// memo tables local to one call and keyed by all that the value depends on: the value is computed in place
